@@ -256,8 +256,8 @@ def run(ctx):
             procs.append((nm, start, subprocess.Popen(["timeout", "1200", "coqc", *common.COQ_ARGS, "-Q", str(ctx["build"]), "KioG", f"{nm}.v"],
                                                       cwd=ctx["build"], stdout=subprocess.PIPE, stderr=subprocess.STDOUT, text=True)))
         for nm, start, p in procs:
-            out = p.communicate()[0]
-            if p.returncode != 0:
+            rc, out = common.coq_result(ctx["build"], nm, p)
+            if rc != 0:
                 viol.append({"kind": "correspondence", "what": "wire model does not evaluate", "detail": out[-1200:]})
             else:
                 codes = [int(x) for x in re.findall(r"(?<![\w.])(\d)(?![\w.])", out.split(": list Z")[0].split("=", 1)[1])]
@@ -282,6 +282,43 @@ def run(ctx):
             viol.append({"kind": "correspondence", "what": "generator model does not evaluate", "detail": out[-1500:]})
         else:
             failing = common.parse_nat_list(out)
+    # how many (definition, version) modules are covered by the THEOREM defn_ok -> def_wf (Props/C16.v), and does the
+    # boolean agree with the evaluated well-formedness
+    thm = {"covered_by_theorem": 0, "wf_but_not_covered": 0, "neither": 0, "covered_but_not_wf": 0}
+    if meta:
+        pairs = []
+        seen_dv = set()
+        for d in defs:
+            lo, hi = parse_range(d["validVersions"])
+            for v in range(lo, hi + 1):
+                if (d["name"], v) in seen_dv:
+                    continue
+                seen_dv.add((d["name"], v))
+                try:
+                    pairs.append(f"({defgen.coq_defn(d)}, {defgen.cz(v)})")
+                except Exception:  # noqa
+                    pass
+        blt = "[" + "; ".join(defgen.cstr(b) for b in sorted(dir(builtins))) + "]"
+        text = ("From Coq Require Import ZArith List Bool String.\nFrom KioV Require Import Base.Res Gen.Gen Gen.GenPlan Gen.GenWf.\n"
+                "Import ListNotations.\nOpen Scope string_scope.\n"
+                f"Definition blt : list string := {blt}.\n"
+                "Definition pairs : list (defn * Z) := [\n" + ";\n".join(pairs) + "\n].\n"
+                "Definition tally (acc : Z * Z * Z * Z) (p : defn * Z) : Z * Z * Z * Z :=\n"
+                "  match acc with (a, b, c, e) =>\n"
+                "  match defn_ok blt (fst p) (snd p), def_wf blt (fst p) (snd p) with\n"
+                "  | true, true => (a + 1, b, c, e) | false, true => (a, b + 1, c, e) | false, false => (a, b, c + 1, e)\n"
+                "  | true, false => (a, b, c, e + 1) end end%Z.\n"
+                "Eval vm_compute in fold_left tally pairs (0, 0, 0, 0)%Z.\n")
+        rc3, out3, _ = common.run_generated(ctx["build"], f"CorrC16t_{ctx['seed']}", text, timeout=1500)
+        m3 = re.search(r"\(\s*(\d+),\s*(\d+),\s*(\d+),\s*(\d+)\)", out3.replace("%Z", "")) if rc3 == 0 else None
+        if not m3:
+            viol.append({"kind": "correspondence", "what": "defn_ok / def_wf do not evaluate", "detail": out3[-1200:],
+                         "failing_input_found": False})
+        else:
+            a, b, c, e = (int(x) for x in m3.groups())
+            thm = {"covered_by_theorem": a, "wf_but_not_covered": b, "neither": c, "covered_but_not_wf": e}
+            if e:   # impossible by c16_supported_definitions_are_well_formed
+                viol.append({"kind": "theorem", "what": "defn_ok holds but def_wf does not: contradicts the theorem", "failing_input_found": False})
     if prop_bad:
         viol.append({"kind": "property", "what": "a generated module does not reflect its definition",
                      "failing_input_found": True, "n_failing": len(prop_bad), "cases": prop_bad[:4],
@@ -307,6 +344,7 @@ def run(ctx):
                 "generator; every (definition, version) module compared with the Gallina model and with an independent reading",
         "feature_counts": g.stats, "wire_cases": len(wire_cases), "wire_disagreements": len(wire_failing),
         "modules_outside_wf_env": len(outside_wf),
+        "well_formedness_by_theorem": thm,
         "samples": [defs[0]] if defs else [],
         "property_failures_on_implementation": len(prop_bad), "correspondence_disagreements": len(failing),
     }
